@@ -951,6 +951,8 @@ class MacroProgram(ElementProgram):
                         for fs in filtering:
                             fs.append(expression)
                         filtering.append([])
+                        # (the dictionaries that follow this one)
+                        value.filters = filtering[-1]
                     elif boolean:
                         value = nodes.Boolean(
                             expr, name, default, self.default_marker)
